@@ -359,6 +359,15 @@ class World:
             extra["flags"] = [bool(getattr(o, "_is_frozen", False)) for o in self.objs]
         elif k == "failwalk":
             obj.has_instance("not-a-type")
+        elif k == "scramble":
+            # a caller that edits the list it was handed (reverse, drop the last entry); the model is not touched
+            r = self.raw_call(obj, op[2])
+            if isinstance(r, list):
+                r.reverse()
+                if r:
+                    r.pop()
+            elif isinstance(r, dict):
+                r.clear()
         elif k == "derive":
             try:
                 self.keep.append(obj.mapper_from_prior_arguments({p: p for p in obj.priors}))
